@@ -12,7 +12,8 @@ RULE = ('All directed descriptions (every order x every orientation) of all simp
         'perturbations of 0.4/0.99/1.01/2.5 e-3 of the shortest segment in 3 directions on every wire end that '
         'takes part in a junction, plus two-ends-perturbed triples (thorough), plus every orientation of every connected-'
         'somewhere graph with each wire in turn described elsewhere (on another wire\'s far end / far away / scaled / rotated) '
-        'and brought into place by a per-tag transformation option through main(). A state is the undirected '
+        'and brought into place by a per-tag transformation option through main(); plus a tapered wire (3 types, either end, '
+        'reversed, 3 listing orders) with an arm 0..0.03 shortest-segment lengths beside its end and a base that far above the plane. A state is the undirected '
         'structure (edge set, segment counts, environment, perturbation); a transition is one description '
         'of it that is built with the real constructor. Non-trivial: the structure has at least one '
         'junction or grounded end (pulse count differs from sum(segments-1)).')
@@ -26,8 +27,23 @@ def bounds(tier, seed):
                 segcounts='{1,2,3}^n (<=3 wires); one vector for 4 wires', variant=geom.variant(seed))
 
 
+def taper_cases(tier, seed):
+    """near-coincidences measured against the shortest segment of a TAPERED wire (the structure-wide tolerance is
+    1e-3 of the shortest segment anywhere): arm end d beside either boom end, vertical base h above the plane"""
+    rot, sc, f = geom.variant(seed)
+    lam = geom.C_MININEC / f
+    mags = (0., 0.4e-3, 0.99e-3, 1.01e-3, 2.5e-3, 3e-2)
+    for ttype in (1, 2, 3):
+        for env in ('free', 'ideal'):
+            for bend in (0, 1):
+                for order in (0, 1, 2):
+                    for rev in (0, 1):
+                        yield dict(taper=ttype, env=env, f=f, lam=lam, bend=bend, order=order, rev=rev, mags=mags)
+
+
 def cases(tier, seed):
     yield from extra_cases(tier, seed)
+    yield from taper_cases(tier, seed)
     D = 3
     for ground in (False, True):
         P, f, lam = geom.lattice(seed, ground=ground)
@@ -298,9 +314,60 @@ def check_model(m, case, ground):
     return v, N, junc, gnd
 
 
+def eval_taper(c):
+    import mininec.mininec as mm
+    lam, f, env = c['lam'], c['f'], c['env']
+    ground = env != 'free'
+    r = 2e-4 * lam
+    z0 = 0.12 * lam
+    A, B = np.array([0., 0., z0]), np.array([0.27, 0.03, z0 + 0.02 * lam / 1.0]) * np.array([lam, lam, 1.])
+    boom = geom.wire(B, A, 7, r, taper=[{1: 2, 2: 1, 3: 3}[c['taper']]]) if c['rev'] else geom.wire(A, B, 7, r, taper=[c['taper']])
+    mb = geom.build(dict(f=f, env=env, wires=[boom]), sources=False, loads=False)
+    lens = [sg.seg_len for sg in mb.geo[0].segments]
+    lmin = min(lens)
+    J = B if c['bend'] else A
+    u = np.array([0.36, -0.48, 0.8])
+    viol, canon, nontriv = [], [], []
+    ev = 0
+    for d in c['mags']:
+        for h in c['mags'] if ground else (None,):
+            X = J + u * d * lmin
+            T = X + np.array([0.02, 0.09, 0.05]) * lam
+            arm = geom.wire(X, T, 2, r)
+            ws = [boom, arm]
+            if ground:
+                G = np.array([0.1 * lam, 0.2 * lam, h * lmin])
+                ws.append(geom.wire(G, G + np.array([0., 0., 0.11 * lam]), 2, r))
+            ws = [ws[i] for i in ((0, 1, 2), (1, 0, 2), (2, 1, 0))[c['order']] if i < len(ws)]
+            case = dict(f=f, env=env, wires=ws)
+            ev += 1
+            try:
+                m = geom.build(case, sources=False, loads=False)
+            except ValueError as e:
+                viol.append(('REJECTED-taper', 'valid structure rejected: %s' % e))
+                continue
+            tol = 1e-3 * min(sg.seg_len for g in m.geo for sg in g.segments)
+            junc, gnd, free, amb = topo.clusters(case, ground, tol=tol)
+            N = sum(w['n'] - 1 for w in ws) + len(gnd) + sum(len(x) - 1 for x in junc)
+            name = 'taper%d %s boom end %d%s, listing %d: arm %.3g and base %s shortest segments (%.4g) away' % (
+                c['taper'], env, c['bend'] + 1, ' (reversed)' if c['rev'] else '', c['order'], d, h, lmin)
+            if abs(tol - 1e-3 * lmin) > 1e-9 * tol:
+                viol.append(('TAPER-LMIN', name + ': shortest segment of the structure %g is not that of the tapered wire alone %g' % (tol * 1e3, lmin)))
+            if len(m.pulses) != N:
+                viol.append(('COUNT-taper', name + ': pulses %d expected %d' % (len(m.pulses), N)))
+            if [p.idx for g in m.geo for p in g.pulses] != list(range(len(m.pulses))):
+                viol.append(('NUMBERING-taper', name + ': pulses not numbered in object order'))
+            viol += [(a + '-taper', name + ': ' + b) for a, b in geom.pulse_geometry_violations(m)[:2]]
+            canon.append('taper%d|%s|%d|%d|%d|%g|%s' % (c['taper'], env, c['bend'], c['order'], c['rev'], d, h))
+            nontriv.append(True)
+    return dict(viol=viol[:6], canon=canon, nontriv=nontriv, trans=ev, traces=ev, evals=ev, outcome='taper', dev=0.0)
+
+
 def evaluate(c):
     if 'extra' in c:
         return eval_extra(c)
+    if 'taper' in c:
+        return eval_taper(c)
     import mininec.mininec as mm
     ground = c['env'] != 'free'
     viol, canon, nontriv, outcomes = [], [], [], {}
